@@ -14,6 +14,7 @@ import sys
 
 from common import Check, Driver, Infra, VERIF, sarpy_guard
 import c13x
+import c13t
 
 sys.path.insert(0, os.path.join(VERIF, 'translate'))
 
@@ -334,12 +335,14 @@ def run(tier):
     chk = Check('C13', tier)
     rng = chk.rng
     xs = c13x.Session(chk, tier)          # C13x: regenerates Gen/NitfTables2*.lean (must exist before the driver is built)
+    ts = c13t.Session(chk, tier)          # C13t: regenerates Gen/TreTables*.lean from the TRE modules (same)
     import tables_nitf
     gen = tables_nitf.generate(os.path.join(VERIF, 'lean', 'SarpyModel', 'Gen', 'NitfTables.lean'))
     gen_info = {'table_driven': sorted(gen['tables']), 'overrides': gen['overrides'], 'loops': gen['loops'], 'changed': gen['changed']}
     broken = chk.prove(['SarpyModel.Props.C13', 'SarpyModel.Gen.NitfTables', 'SarpyModel.Drivers'], 'SarpyModel.Props.C13',
                        'Sarpy.Props.C13', REQUIRED, gen_info)
     broken += xs.prove()
+    broken += ts.prove()
 
     fails = []
     stats = {}
@@ -393,6 +396,7 @@ def run(tier):
         body = ';'.join(s.encode().hex() or '-' for s in items) or '-'
         jobs.append(('loop', py, None, drv.ask(f'nitf loop 1 s80 {body}'), None))
     xs.enqueue(drv)
+    ts.enqueue(drv)
     try:
         ans = drv.run()
     except Infra as e:
@@ -423,9 +427,16 @@ def run(tier):
     disagreements += d2
     stats.update(s2)
     classes_seen |= set(s2.get('x_classes', []))
+    f3, d3, s3 = ts.collect(ans)
+    fails += f3
+    disagreements += d3
+    stats.update(s3)
+    classes_seen |= {'TRE:' + n for n in ts.cov}
     chk.coverage.update({
         'evaluations': stats.get('instances', 0) + stats.get('rejections', 0) + stats.get('model_records', 0)
-                       + stats.get('x_instances', 0) + stats.get('x_model_records', 0) + stats.get('x_tre_lists', 0),
+                       + stats.get('x_instances', 0) + stats.get('x_model_records', 0) + stats.get('x_tre_lists', 0)
+                       + stats.get('t_payloads', 0) + stats.get('t_model_records', 0) + stats.get('t_dispatch_cases', 0) + stats.get('t_probes', 0)
+                       + stats.get('t_snapshot_payloads', 0),
         'distinct_nontrivial': len(classes_seen),
         'rule': 'instances of every NITF 2.1/2.0 element class (defaults + random accepted values: edge-of-width integers incl. negatives, strings up to the width, '
                 'enumerations; file headers with 0-4 item arrays; image subheaders with 1-12 bands incl. the >9 extension, LUTs with 1-3 tables, 0-9 comments, '
@@ -433,7 +444,8 @@ def run(tier):
                 'distinct = element classes instantiated; non-trivial = the instance encodes to at least one byte',
         'samples': [f'{l}: {inst.to_bytes()[:48]!r}' for l, inst in insts[:3] if not isinstance(inst, Exception)],
         'stats': stats,
-        'traces_validated_against_impl': stats.get('model_records', 0) + stats.get('x_model_records', 0) + stats.get('x_tre_lists', 0),
+        'traces_validated_against_impl': stats.get('model_records', 0) + stats.get('x_model_records', 0) + stats.get('x_tre_lists', 0)
+                                         + stats.get('t_decoded', 0) + stats.get('t_expected_refusals', 0),
         'disagreements_checked': len(disagreements),
     })
     chk.assumptions += [
@@ -456,6 +468,9 @@ def run(tier):
 
 
 def replay(path):
+    sarpy_guard()
     case = json.load(open(path))['case']
     print(json.dumps(case)[:1500])
+    if isinstance(case, dict) and case.get('tre') and case.get('bytes'):
+        return c13t.replay_case(case)
     return 1
